@@ -428,6 +428,27 @@ func atpcMain(a Args) {
 				}
 			}
 		}
+		// -- C06: deterministic witnesses of a write under the client mutex meeting a server that
+		// stops reading (unbuffered pipe; the buffered pipe is the control: it must always pass)
+		if streams["c06"] {
+			firstPoint := func(fn string) int {
+				for _, p := range b.points {
+					if p.Fn == fn {
+						return p.ID
+					}
+				}
+				return 0
+			}
+			for _, ss := range atpcs.BackpressureSessions() {
+				st.Sessions++
+				var ds []atpcs.Delay
+				if p := firstPoint(ss.DelayFn); p > 0 {
+					ds = []atpcs.Delay{{Point: p, Ms: ss.DelayMs, Max: 16}}
+				}
+				add(atpcs.Job{Session: ss, Transport: "pipe", WriteFailAfter: -1, Delays: ds}, "c06-witness")
+				add(atpcs.Job{Session: ss, Transport: "buf", ChunkSeed: rng.Int63(), WriteFailAfter: -1, Delays: ds}, "c06-witness-control")
+			}
+		}
 		// -- C08: damaged streams
 		if streams["c08"] {
 			for _, fj := range atpcs.FaultJobs(rng, thorough) {
@@ -538,6 +559,9 @@ func atpcDescribe(b *atpcBuild, j atpcs.Job) string {
 	}
 	if j.WriteFailAfter >= 0 {
 		fmt.Fprintf(&sb, " writes fail after %d", j.WriteFailAfter)
+	}
+	if j.Session.Marker != "" {
+		fmt.Fprintf(&sb, " marker=%s", j.Session.Marker)
 	}
 	return sb.String()
 }
